@@ -28,6 +28,7 @@ func corpusMain() *MProgram {
 		{Kind: "struct", Name: "Inner", Fields: []MField{
 			fld(1, "xx", "required", tBase("i32")),
 			fld(2, "ss", "optional", tBase("string")),
+			fld(3, "dv", "optional", tBase("i32"), "9"), // elements of containers must get their defaults too
 		}},
 		{Kind: "struct", Name: "Scalars", Fields: []MField{
 			fld(1, "rr", "required", tBase("i32")),
@@ -61,6 +62,7 @@ func corpusMain() *MProgram {
 			fld(11, "ld", "", tList(tBase("double"))),
 			fld(12, "mi", "", tMap(tBase("string"), tBase("i64"))),
 			fld(13, "mb", "optional", tMap(tBase("i16"), tBase("bool"))),
+			fld(14, "si", "", tSet(tStruct("Inner"))),
 		}},
 		{Kind: "struct", Name: "Nested", Fields: []MField{
 			fld(1, "in", "", tStruct("Inner")),
